@@ -47,7 +47,9 @@ def elements(r, f):
         return f + ", " + r.choice(["b", "1"])
     if k < 0.9:
         return f + "; " + r.choice(["b", "> a", "a : b"])
-    return r.choice(["", " : a", "a : ", ";"])
+    # elements without a term / with several terms whose condition holds without any atom (so that the element survives grounding:
+    # a condition over program atoms of a &del element is never true, see DESIGN 11.18)
+    return r.choice(["", " : a", "a : ", ";", " : 1 < 2", " : X = 1", f + ", b : 1 < 2", f + " : 1 < 2; : 1 < 2", "a, b, c"])
 
 def statement(r):
     part = r.choice(["initial", "always", "dynamic", "final", "base", "foo", "always(t)", "final"])
